@@ -786,7 +786,8 @@ class DictArithmetic(dict):
         """
         if self:
             mult = value / max(abs(v) for v in self.values())
-            for k in self:
+            # a key is removed when its scaled value is zero
+            for k in tuple(self):
                 self[k] *= mult
 
     def subgraph(self, nodes, connections=None):
